@@ -238,7 +238,9 @@ class Gen:
             spec["zeta"] = [float(z.real), float(z.imag)]
         elif t == "Custom":
             d = v["dims"][name]
-            k = max(nmax + 1, d + int(r.integers(-1, 2)))
+            # never ask for an implicit shrink: whether levels holding only rounding dust may be cut is the
+            # library's call (exact-zero test) and a refused shrink legitimately fails the operation
+            k = max(nmax + 1, d + int(r.integers(0, 2)))
             k = max(k, 2)
             spec["operator"] = c2j(self.unitary(k))
         elif t == "Expresion":
